@@ -20,7 +20,9 @@ import tempfile
 import xml.etree.ElementTree as ET
 
 PY = '/venv/bin/python'
-BASE = '/tmp/baseline_pass_after_fixes.txt'
+BASE = '/tmp/baseline_pass_after_fixes2.txt'
+if not os.path.exists(BASE):   # committed copy (188 tests passing on /repo 54558c4)
+    BASE = os.path.join(os.path.dirname(os.path.abspath(__file__)), 'baseline_pass_after_fixes.txt')
 KNOWN_FLAKY = {'tests.unit.test_utils::test_minimize_with_constraints'}
 
 
